@@ -12,6 +12,6 @@ loader = importlib.machinery.SourceFileLoader("check_mod", "./check")
 spec = importlib.util.spec_from_loader("check_mod", loader)
 m = importlib.util.module_from_spec(spec)
 loader.exec_module(m)
-for v in ("v0", "v1"):
+for v in ("v0", "v1", "v3"):
     m.build_or_die(v)
 PY
